@@ -30,6 +30,11 @@ pub enum ExitMode {
     RunRenderHandlerError,
     HangUp,
     Signal(i32),
+    /// the application panics while it owns the terminal (stack unwinding drops it)
+    Panic,
+    /// ... inside the handler of `run` / `run_render`
+    PanicInRun,
+    PanicInRunRender,
 }
 
 #[derive(Clone, Debug, PartialEq, Eq, Hash, Serialize, Deserialize)]
@@ -785,6 +790,44 @@ fn check_exit_case(script: &[XOp], mode: &ExitMode, odd: u64, seed: u64, ctx: &m
                 ensure!(quit, "signal:quit-not-reported", "{what}: signal {sig} did not surface as Error::Quit");
                 drop(term);
             }
+            ExitMode::Panic | ExitMode::PanicInRun | ExitMode::PanicInRunRender => {
+                let pty = &session.pty;
+                let mode = mode.clone();
+                let unwound = std::panic::catch_unwind(std::panic::AssertUnwindSafe(move || {
+                    let mut term = term;
+                    match mode {
+                        ExitMode::Panic => {
+                            for op in &script[..k] {
+                                do_xop(&mut term, pty, &waker, op);
+                            }
+                            panic!("injected application panic");
+                        }
+                        ExitMode::PanicInRun => {
+                            let mut step = 0usize;
+                            let _: Result<(), StopHere> = term.run(Some(Duration::from_millis(0)), |term, _ev| {
+                                if step >= k {
+                                    panic!("injected application panic");
+                                }
+                                do_xop(term, pty, &waker, &script[step]);
+                                step += 1;
+                                Ok(TerminalAction::Sleep(Duration::from_millis(0)))
+                            });
+                        }
+                        _ => {
+                            let mut step = 0usize;
+                            let _: Result<(), StopHere> = term.run_render(|term, _ev, _surf| {
+                                if step >= k {
+                                    panic!("injected application panic");
+                                }
+                                do_xop(term, pty, &waker, &script[step]);
+                                step += 1;
+                                Ok(TerminalAction::Sleep(Duration::from_millis(0)))
+                            });
+                        }
+                    }
+                }));
+                ensure!(unwound.is_err(), "harness:panic-not-raised", "{what}: the injected panic did not unwind");
+            }
             ExitMode::RunHandlerError => {
                 let mut step = 0usize;
                 let pty = &session.pty;
@@ -822,6 +865,9 @@ fn check_exit_case(script: &[XOp], mode: &ExitMode, odd: u64, seed: u64, ctx: &m
             ExitMode::RunRenderHandlerError => "run_render-handler-error",
             ExitMode::HangUp => "peer-hang-up",
             ExitMode::Signal(_) => "termination-signal",
+            ExitMode::Panic => "panic",
+            ExitMode::PanicInRun => "panic-in-run-handler",
+            ExitMode::PanicInRunRender => "panic-in-run_render-handler",
         }));
     }
     Ok(())
@@ -905,12 +951,13 @@ impl Prop for C17 {
                         _ => XOp::Wake,
                     })
                     .collect();
-                let mode = match rng.below(6) {
+                let mode = match rng.below(7) {
                     0 => ExitMode::Drop,
                     1 => ExitMode::RunHandlerError,
                     2 => ExitMode::RunRenderHandlerError,
                     3 => ExitMode::HangUp,
                     4 => ExitMode::Signal(*rng.pick(&[libc::SIGTERM, libc::SIGINT, libc::SIGQUIT])),
+                    5 => rng.pick(&[ExitMode::Panic, ExitMode::PanicInRun, ExitMode::PanicInRunRender]).clone(),
                     _ => ExitMode::Drop,
                 };
                 Case::Exit { script, mode, odd_termios: rng.below_u64(8), seed: rng.next_u64() }
@@ -942,7 +989,7 @@ impl Prop for C17 {
     }
 
     fn rule() -> &'static str {
-        "case = Wake(waker threads x wakes with gaps, poll timeouts, hook-injected wakes/delays at the yield points of poll, optional pending output) | Input(key bytes typed in batches while output is pending, window-size signals, wakes) | Quit(termination signal) | Exit(script, exit mode: all prefixes are run and ended by drop / handler error in run / run_render / peer hang-up / termination signal); every case non-trivial; distinct = hash of the case"
+        "case = Wake(waker threads x wakes with gaps, poll timeouts, hook-injected wakes/delays at the yield points of poll, optional pending output) | Input(key bytes typed in batches while output is pending, window-size signals, wakes) | Quit(termination signal) | Exit(script, exit mode: all prefixes are run and ended by drop / handler error in run / run_render / peer hang-up / termination signal / application panic, also inside the run and run_render handlers); every case non-trivial; distinct = hash of the case"
     }
 
     fn sample(case: &Case) -> serde_json::Value {
